@@ -52,6 +52,7 @@ def floors(tier):
             "file:enum-value": 1,
             "file:xfail": 1,
             "file:imported-exception-class": 1,
+            "file:private-exception-class-in-raises": 1,
             "file:seed-fixture": 1,
             "ag:NONE": 3, "ag:SIMPLE": 10, "ag:MUTATION_ANALYSIS": 5,
             "no_xfail:on": 8, "no_xfail:off": 8, "black:on": 8, "black:off": 5,
@@ -201,6 +202,12 @@ def _file_classes(fi, text, c):
             if name and name in fi.public_names:
                 cl.append("file:imported-exception-class")
                 break
+    for n in ast.walk(fi.tree):
+        if isinstance(n, ast.With):
+            name = genfiles.is_raises_block(n)
+            if name and name.rsplit(".", 1)[-1].startswith("_"):
+                cl.append("file:private-exception-class-in-raises")
+                break
     if not fi.imports_pytest:
         cl.append("file:no-import-pytest")
     return cl
@@ -288,7 +295,7 @@ def check_file(ctx, r):
             report("skipped-test", f"{t['name']} was skipped: {t['message'][:120]}", {"function": ast.unparse(fn)[:1200] if fn else None})
             continue
         key = _mechanism(t, fi, fn)
-        if key.startswith("fails:AssertionError"):
+        if key.startswith("fails:AssertionError") and ":on-sut-module-variable:" not in key:
             removed = _statements_removed_after_assertion_generation(r["res"], t["name"])
             if removed:
                 # the value was observed before statement minimisation removed calls from this test case
